@@ -479,6 +479,67 @@ def explore_syscalls(ck: Check, writer: str, states, tmp_root: Path, worst: list
         shutil.rmtree(d, ignore_errors=True)
 
 
+def derive_plan_from_behaviour(tmp_root: Path):
+    """Fallback when the AST reader does not recognise save_parameters (a deep but possibly harmless rewrite): the
+    write program as a FUNCTION of the abstract directory state is observed exhaustively — all 27 states x the 4 flag
+    combinations are run on the real function and the operation traces recorded — and emitted as a `Prog` that tests
+    which of the three files exist and then performs the observed operations. The abstract domain is finite, so the
+    derived program is exact for the model; it is refused (-> None) when a trace depends on anything but the flags
+    and on which files exist, or contains an operation the model does not have. The syscall-level enumeration and
+    the directory-state correspondence stay independent of it."""
+    pat = re.compile(r"^(O|W|F|X):(name|new|old)$|^R:(name|new|old)>(name|new|old)$")
+
+    def lean_op(e):
+        k, rest = e.split(":", 1)
+        if k == "R":
+            a, b = rest.split(">")
+            return f"(.rename .{a} .{b})"
+        return {"O": "(.openTrunc .", "W": "(.writeChunk .", "F": "(.finishWrite .", "X": "(.remove ."}[k] + rest + ")"
+
+    WRITER[0], VARIANT[0] = "save_parameters", 0
+    trees = {}
+    for fl in [(True, False), (True, True), (False, False), (False, True)]:
+        leaves = {}
+        for st in [a + b + c for a in "ATC" for b in "ATC" for c in "ATC"]:
+            d = Path(tempfile.mkdtemp(prefix="p-", dir=tmp_root))
+            materialise(d, st, GEN0)
+            events, _tail = run_write(d, FIRST_GEN, None, flags=fl)
+            shutil.rmtree(d, ignore_errors=True)
+            ops = collapse(events)
+            if not all(pat.match(e) for e in ops):
+                return None, f"unmodelled operation in {ops} from {st} with flags {fl}"
+            key = tuple(ch != "A" for ch in st)
+            if leaves.setdefault(key, ops) != ops:
+                return None, f"the operations depend on more than which files exist ({st}, flags {fl})"
+
+        def leaf(key):
+            out = ".done"
+            for e in reversed(leaves[key]):
+                out = f"(.seq {lean_op(e)} {out})"
+            return out
+
+        def tree(prefix):
+            if len(prefix) == 3:
+                return leaf(tuple(prefix))
+            p = PATHS[len(prefix)]
+            return f"(.ite (.pathExists .{p})\n  {tree(prefix + [True])}\n  {tree(prefix + [False])})"
+
+        trees[fl] = tree([])
+    prog = (f"(.ite .overwrite\n (.ite .safely {trees[(True, True)]} {trees[(False, True)]})\n"
+            f" (.ite .safely {trees[(True, False)]} {trees[(False, False)]}))")
+    lean = (
+        "import TTModel.FS\n"
+        "/-! GENERATED by harness/c18.py:derive_plan_from_behaviour — the AST reader (tr_saveparams.py) did not recognise\n"
+        "    save_parameters; this program is the operation trace of the REAL function observed exhaustively over the 27\n"
+        "    abstract directory states x 4 flag combinations — do not edit.\n-/\n"
+        "namespace TTGen.C18_SavePlan\nopen TT.FS\n\n"
+        "def translatorOk : Bool := true\n\n"
+        f"def prog : Prog :=\n  {prog}\n\n"
+        "end TTGen.C18_SavePlan\n"
+    )
+    return lean, ""
+
+
 def collapse(events):
     """consecutive W:p events -> one (the model's writeChunk stands for any number of them)"""
     out = []
@@ -720,8 +781,23 @@ def run(ck: Check):
     ]
     lean_src, tr_ok, note = tr_saveparams.translate(REPO)
     callers_src, c_ok, c_notes, sites = tr_ckcallers.translate(REPO)
+    ck.extra["plan_source"] = "source (AST)"
     if not tr_ok:
         ck.notes.append("translator: " + note)
+        # a deep rewrite the AST reader cannot follow: derive the program from exhaustive observation instead
+        _root = Path(tempfile.mkdtemp(prefix="c18p-"))
+        try:
+            derived, why = derive_plan_from_behaviour(_root)
+        except Exception as e:  # noqa: BLE001
+            derived, why = None, f"{type(e).__name__}: {e}"
+        finally:
+            shutil.rmtree(_root, ignore_errors=True)
+        if derived is not None:
+            lean_src, tr_ok = derived, True
+            ck.extra["plan_source"] = "behaviour (27 states x 4 flag combinations observed on the real function)"
+            ck.notes.append("the write program was derived from exhaustive observation of save_parameters")
+        else:
+            ck.notes.append("behavioural derivation refused: " + why)
     if not c_ok:
         ck.notes.append("caller scan: " + "; ".join(c_notes))
     ok, broken = ck.lean_side(
